@@ -1140,7 +1140,9 @@ class NestedPipeFunc(PipeFunc):
 
     @functools.cached_property
     def original_parameters(self) -> dict[str, Any]:
-        parameters = set(self._all_inputs) - set(self._all_outputs)
+        # The root arguments of the nested pipeline: parameters that are bound inside the
+        # nested functions (or are outputs of other nested functions) are not parameters.
+        parameters = set(self.pipeline.topological_generations.root_args)
         return {
             k: inspect.Parameter(
                 k,
